@@ -167,7 +167,7 @@ def existsMsgTx (st : St) (w : Wid) (i : TxId × Nat) : Option (Tx × BlockMeta)
     match AMap.get s.txrecs (i.1, b) with
     | none => none
     | some loc =>
-      match st.led.node.txByLoc b.height loc with
+      match st.led.txAt b.height loc with
       | some tx => if tx.id = i.1 then some (tx, b) else none
       | none => none
 
